@@ -1,7 +1,18 @@
 """C04 — references deliver the configurable or a fresh result, in the right scope."""
 import gen_gin as G
 import gindom
-from gindom import run_impl, to_driver, compare  # noqa: F401
+from gindom import run_impl, compare  # noqa: F401
+
+
+def _dyn(case):
+  return case.get('dom') == 'dyn'
+
+
+def to_driver(case, impl):
+  if _dyn(case):
+    from props import c19
+    return c19.to_driver(case, impl)
+  return gindom.to_driver(case, impl)
 from props.c01 import _overlay
 
 ID = 'C04'
@@ -228,6 +239,9 @@ def run_raises_case(case):
 
 
 def run_impl(case):  # noqa: F811
+  if _dyn(case):
+    from props import c19
+    return c19.run_impl(case)
   if case.get('kind') == 'raises':
     return run_raises_case(case)
   if case.get('kind') == 'alias':
@@ -236,6 +250,9 @@ def run_impl(case):  # noqa: F811
 
 
 def compare(case, impl, model):  # noqa: F811
+  if _dyn(case):
+    from props import c19
+    return c19.compare(case, impl, model)
   if case.get('kind') in ('alias', 'raises'):
     return None
   return gindom.compare(case, impl, model)
@@ -244,6 +261,16 @@ def compare(case, impl, model):  # noqa: F811
 def gen_cases(rng, tier, boost=1):
   yield from ALIAS_CASES
   yield from RAISE_CASES
+  # references under dynamic registration (files of the C19 generator that hold `@name` / `@scope/name()` values): what
+  # a reference delivers after later files re-registered its class is judged by C19's machinery
+  from props import c19
+  want, seen = (80 if tier == 'quick' else 3000) * boost, 0
+  for case in c19.gen_cases(rng, 'thorough', boost):
+    if any(st.get('k') == 'bindref' for u in case['units'] for st in u):
+      yield case
+      seen += 1
+      if seen >= want:
+        break
   n = (700 if tier == 'quick' else 20000) * boost
   for _ in range(n):
     yield gen_case(rng)
@@ -265,6 +292,9 @@ def _count_refs(v, counts, evaluated_only=True):
 
 def oracle(case, impl):
   """Independent statement (flat configurations): call counts, scopes, and immutability of the store."""
+  if _dyn(case):
+    from props import c19
+    return c19.oracle(case, impl)
   if case.get('kind') == 'raises':
     f = impl['facts']
     if 'error' in f:
@@ -328,6 +358,8 @@ def oracle(case, impl):
 
 
 def nontrivial(case, impl):
+  if _dyn(case):
+    return bool(impl.get('ref_effects'))
   if case.get('kind') in ('alias', 'raises'):
     return True
   nested = any(o['op'] == 'bind' and isinstance(o['val'], dict) and any(k in o['val'] for k in ('l', 't', 'd'))
@@ -339,6 +371,9 @@ def nontrivial(case, impl):
 
 
 def tally(stats, case, impl):
+  if _dyn(case):
+    stats['dynamic_registration_cases'] = stats.get('dynamic_registration_cases', 0) + 1
+    return
   if case.get('kind') in ('alias', 'raises'):
     stats['alias_table'] = stats.get('alias_table', 0) + 1
     return
@@ -351,6 +386,8 @@ def tally(stats, case, impl):
 
 
 def shrink(case):
+  if _dyn(case):
+    return
   if case.get('kind') in ('alias', 'raises'):
     return
   ops = case['ops']
